@@ -97,6 +97,10 @@ def main():
                                            padding=[True], return_set=[False, True], taus=[1], comp_ops=['<='],
                                            missing='sym', allow_missing=[False, True], n_jobs=[1, 2],
                                            out_sim_score=[True, False], props=P)), bounds=dict(len='0..1', rows='1x2'))
+    ck.e2('join-2x1-flags', h_ed.make(dict(entry='ed_join', nl=2, nr=1, lens=[1], q=[2], padding=[True],
+                                           return_set=[False], taus=[1], comp_ops=['<='], missing='sym',
+                                           allow_missing=[False, True], n_jobs=[1], props=P)),
+          bounds=dict(len=1, rows='2x1', missing='symbolic'))
     ck.e2('join-1x2-context', h_ed.make(dict(entry='ed_join', nl=1, nr=2, lens_l=[2], lens_r=[1] if quick else [0, 1, 2],
                                              q=[2], padding=[True], return_set=[False], taus=[1], comp_ops=['<='],
                                              props=P)), bounds=dict(len='<=2', rows='1x2'))
